@@ -236,8 +236,22 @@ func c08Cells() []c08Cell {
 func c08Run(c c08Cell, values int) (ds []keyed, info string) {
 	key := func(what string) string { return "view " + c.String() + " " + what }
 	outcome := "refused"
-	for k := 0; k < values; k++ {
-		sp := c08Populate(c.src, k)
+	// the last round repeats the first with the source naming the viewed type as its own (an *Object whose type says "Tombstone"):
+	// what a conversion does is decided by what the value is, not by what it says it is
+	mkSrc := func(k int) reflect.Value {
+		sp := c08Populate(c.src, k%values)
+		if k == values {
+			if tn, ok := vocab.DefaultType[c.h.target]; ok {
+				sp.Elem().FieldByName("Type").SetString(string(tn))
+			}
+		}
+		return sp
+	}
+	for k := 0; k <= values; k++ {
+		if k == values && c.h.target == c.src.Name() {
+			break
+		}
+		sp := mkSrc(k)
 		var src ap.Item = sp.Interface().(ap.Item)
 		if c.form == "val" {
 			src = sp.Elem().Interface().(ap.Item)
@@ -316,7 +330,7 @@ func c08Run(c c08Cell, values int) (ds []keyed, info string) {
 		// (b') the same writes made inside the callback, which then fails: the helper reports the failure, it does not undo (or postpone)
 		// what was written through the view - the original holds it while the callback runs and after the helper returned
 		if c.form == "ptr" && strings.HasPrefix(c.h.name, "On") && len(ds) == 0 {
-			sp2 := c08Populate(c.src, k)
+			sp2 := mkSrc(k)
 			marker := c08Populate(vt, k+70).Elem()
 			var during []string
 			c08Inside = func(v interface{}) error {
